@@ -143,6 +143,20 @@ func (db *DB) reconstructSSTables() error {
 		// do not rely on the order of the FS, we do an additional sort to make sure we start reading from 0000 to 9999
 		sort.Strings(tablePaths)
 		for _, p := range tablePaths {
+			incomplete, err := isIncompleteSSTable(p)
+			if err != nil {
+				return err
+			}
+			if incomplete {
+				// the process died while this table was flushed, its content is still in the WAL
+				log.Printf("found incomplete sstable to be deleted in %v", p)
+				err = os.RemoveAll(p)
+				if err != nil {
+					return err
+				}
+				continue
+			}
+
 			suffix := filepath.Base(p)[len(SSTablePrefix)+1:]
 			i, err := strconv.ParseUint(suffix, 10, 64)
 			if err != nil {
@@ -167,6 +181,28 @@ func (db *DB) reconstructSSTables() error {
 	}
 
 	return nil
+}
+
+// isIncompleteSSTable tells whether the directory is a table whose writer never reached Close: the directory is
+// still empty, or the metadata file (created first, filled last) is empty. Tables without any metadata file are
+// tables of the legacy format.
+func isIncompleteSSTable(tablePath string) (bool, error) {
+	entries, err := os.ReadDir(tablePath)
+	if err != nil {
+		return false, err
+	}
+	if len(entries) == 0 {
+		return true, nil
+	}
+
+	info, err := os.Stat(filepath.Join(tablePath, sstables.MetaFileName))
+	if err != nil {
+		if os.IsNotExist(err) {
+			return false, nil
+		}
+		return false, err
+	}
+	return info.Size() == 0, nil
 }
 
 func (db *DB) replayAndSetupWriteAheadLog() error {
